@@ -296,6 +296,7 @@ let run (cmd : sexp) : sexp =
       let e = penv_ rels ss ex in
       let t = Sem508.compile (num pv) (num pfv) (mast a) in
       L [bool_ (Sem508.sem508 (num pv) (num pfv) e (mast a)); bool_ (Concrete.m_eval (Sem508.env_of_penv e) e.Sem508.pe_extras t); stree t]
+  | L [A "compile"; pv; pfv; a] -> stree (Sem508.compile (num pv) (num pfv) (mast a))
   | L [A "valcmp"; a; b] -> scmp (Concrete.m_val_cmp (value a) (value b))
   | L [A "varcmp"; a; b] -> scmp (Concrete.m_var_cmp (var_ a) (var_ b))
   | L [A "substring"; a; b] -> bool_ (Concrete.substring (str a) (str b))
